@@ -226,7 +226,9 @@ Theorem guard_handler_escapes_to_guard_context_lemma : forall s0 c v k gk only t
   ctl s' = CRet (VClauseThunk only tag e v (length (conts s0))) /\ kont s' = kk /\ dk s' = kont_point kk /\
   params s' = point_params (hp s') (kont_point kk) /\
   nth_error (conts s') (length (conts s0)) =
-    Some (FCallThunk :: FHandlerDone c :: FWindExit (length (hp s0)) (dk s0) [ASetParams (params s0)] :: k, length (hp s0)).
+    Some (FCallThunk :: FHandlerDone c :: FWindExit (length (hp s0)) (dk s0) [ASetParams (params s0)] :: k, length (hp s0)) /\
+  hp s' = hp s0 ++ [mkP (depth (hp s0) (dk s0) + 1) [ASetParams (BHandler orig :: params s0)] [ASetParams (params s0)] (dk s0)] /\
+  st s' = Running.
 Proof.
   intros s0 c v k gk only tag e orig kk pt Hr Hst Hc Hk Hh Hn.
   assert (HI : Invk s0 k).
@@ -249,8 +251,9 @@ Proof.
     rewrite nth_error_app1; [exact Hn|]. apply nth_error_Some. rewrite Hn. discriminate. }
   destruct (do_throw_r7rs travel_to_point travel_impl_ok s2 gk (VClauseThunk only tag e v (length (conts s1))) kk pt HI2 Hn2)
     as [E1 E2].
-  rewrite E1. cbn [ctl kont dk params hp conts]. rewrite E2.
-  repeat split.
+  rewrite E1. cbn [ctl kont dk params hp conts st]. rewrite E2.
+  split; [reflexivity|]. split; [reflexivity|]. split; [reflexivity|]. split; [reflexivity|].
+  split; [|split; [reflexivity|exact Hst]].
   unfold s2, s1, do_wind. cbn [conts kont dk hp app].
   rewrite nth_error_app2 by lia. rewrite Nat.sub_diag. reflexivity.
 Qed.
@@ -266,4 +269,109 @@ Proof.
   intros s only tag h body Hst Hc. unfold step_impl, step. rewrite Hst, Hc. unfold step_eval, do_wind.
   cbn [conts params ctl run_actions fst snd].
   rewrite nth_error_app2 by lia. rewrite Nat.sub_diag. repeat split; reflexivity.
+Qed.
+
+(** guard, clause does not match: the clause thunk (called in the guard expression's context) re-enters handler-k, i.e. the
+    continuation INSIDE the handler call at the raise point — same extent (the one made by [self]'s
+    %with-exception-handler: current handler = [orig], the handler outside the guard; parameters of the raise point) —
+    and there the condition is raised again with raise-continuable, on top of the raise point's continuation *)
+Theorem guard_reraise_in_raise_context_lemma : forall s0 c v k gk only tag e orig kg pt,
+  reachable s0 -> st s0 = Running -> ctl s0 = CRet (VNat v) -> kont s0 = FRaise c :: k ->
+  lookup_handler (params s0) = Some (HC (HGuard gk only tag e) orig) ->
+  nth_error (conts s0) gk = Some (FCallThunk :: kg, pt) ->
+  clause_test only v = false ->
+  let kin := FHandlerDone c :: FWindExit (length (hp s0)) (dk s0) [ASetParams (params s0)] :: k in
+  let s2 := step_impl (step_impl s0) in
+  ctl s2 = CRet (VReraiseThunk v) /\ kont s2 = FCallThunk :: kin /\ dk s2 = length (hp s0) /\
+  params s2 = BHandler orig :: params s0 /\ lookup_handler (params s2) = orig /\
+  step_impl s2 = do_raise travel_to_point s2 kin true v.
+Proof.
+  intros s0 c v k gk only tag e orig kg pt Hr Hst Hc Hk Hh Hn Htest kin.
+  destruct (guard_handler_escapes_to_guard_context_lemma s0 c v k gk only tag e orig _ _ Hr Hst Hc Hk Hh Hn)
+    as (C1 & K1 & D1 & P1 & N1 & H1 & S1).
+  assert (HI0 : Inv s0) by (apply reachable_inv; exact Hr).
+  assert (HI1 : Inv (step_impl s0)) by (apply step_inv; [exact travel_impl_ok|exact HI0]).
+  set (s1 := step_impl s0) in *.
+  set (s1' := with_ck s1 (ctl s1) kg).
+  assert (HI1' : Inv s1').
+  { unfold Inv, Invk, s1', with_ck. cbn [hp kont dk params conts].
+    unfold Inv, Invk in HI1. rewrite K1 in HI1. refine (nonwind_pop _ _ _ _ _ _ _ HI1); exact I. }
+  assert (N1' : nth_error (conts s1') (length (conts s0)) = Some (FCallThunk :: kin, length (hp s0))) by exact N1.
+  destruct (do_throw_r7rs travel_to_point travel_impl_ok s1' (length (conts s0)) (VReraiseThunk v) _ _ HI1' N1') as [E1 E2].
+  assert (Hs2 : step_impl s1 = do_throw travel_to_point s1' (length (conts s0)) (VReraiseThunk v)).
+  { unfold step_impl, step. rewrite S1, C1. unfold step_ret. rewrite K1, Htest. reflexivity. }
+  cbv zeta. rewrite Hs2, E1. cbn [ctl kont dk params hp conts st kont_point kin].
+  assert (Hpar : fst (run_wevs (hp s1') (frames_script (kont s1') (FCallThunk :: kin)) (params s1') (out s1'))
+                 = BHandler orig :: params s0).
+  { rewrite E2. cbn [kont_point kin]. unfold s1', with_ck. cbn [hp].
+    destruct HI1 as (Hok1 & _). destruct HI0 as (Hok0 & _). pose proof Hok0 as (_ & Hl0 & _).
+    rewrite (point_params_step (hp s1) (length (hp s0)) Hok1) by (rewrite ?H1, ?app_length; cbn; lia).
+    rewrite H1, hget_new. reflexivity. }
+  rewrite Hpar.
+  split; [reflexivity|]. split; [reflexivity|]. split; [reflexivity|]. split; [reflexivity|]. split; [reflexivity|].
+  unfold step_impl, step. cbn [st ctl kont]. unfold s1', with_ck. cbn [st]. rewrite S1.
+  unfold step_ret. cbn [kont]. reflexivity.
+Qed.
+
+(** guard, clause matches: the clause body runs on the guard form's own continuation, in the guard form's extent
+    ((%dk) and parameters of guard-k), after the winds between the raise point and the guard have been left *)
+Theorem guard_clause_runs_in_guard_context_lemma : forall s0 c v k gk only tag e orig kg pt,
+  reachable s0 -> st s0 = Running -> ctl s0 = CRet (VNat v) -> kont s0 = FRaise c :: k ->
+  lookup_handler (params s0) = Some (HC (HGuard gk only tag e) orig) ->
+  nth_error (conts s0) gk = Some (FCallThunk :: kg, pt) ->
+  clause_test only v = true ->
+  let s1 := step_impl s0 in let s2 := step_impl s1 in
+  ctl s2 = CEval e /\ kont s2 = kg /\ dk s2 = kont_point kg /\
+  params s2 = point_params (hp s2) (kont_point kg) /\ out s2 = (6, v) :: (7, tag) :: out s1 /\
+  out s1 = snd (run_wevs (hp s1) (frames_script (FCallThunk :: FHandlerDone c :: FWindExit (length (hp s0)) (dk s0) [ASetParams (params s0)] :: k) (FCallThunk :: kg))
+                         (BHandler orig :: params s0) (out s0)).
+Proof.
+  intros s0 c v k gk only tag e orig kg pt Hr Hst Hc Hk Hh Hn Htest.
+  destruct (guard_handler_escapes_to_guard_context_lemma s0 c v k gk only tag e orig _ _ Hr Hst Hc Hk Hh Hn)
+    as (C1 & K1 & D1 & P1 & N1 & H1 & S1).
+  cbv zeta. set (s1 := step_impl s0) in *.
+  assert (Hs2 : step_impl s1 = emit (emit (with_ck s1 (CEval e) kg) (7, tag)) (6, v)).
+  { unfold step_impl, step. rewrite S1, C1. unfold step_ret. rewrite K1, Htest. reflexivity. }
+  rewrite Hs2. unfold emit, with_ck. cbn [ctl kont dk params hp out].
+  split; [reflexivity|]. split; [reflexivity|]. split; [exact D1|]. split; [exact P1|]. split; [reflexivity|].
+  (* the events of the raise step itself: the wind script from inside the handler call to guard-k *)
+  assert (HI : Invk s0 k).
+  { pose proof (reachable_inv s0 Hr) as HI. unfold Inv in HI. rewrite Hk in HI.
+    refine (nonwind_pop _ _ _ _ _ _ _ HI); exact I. }
+  unfold s1, step_impl, step. rewrite Hst, Hc. unfold step_ret. rewrite Hk. unfold do_raise. rewrite Hh.
+  set (w1 := do_wind s0 k [ASetParams (BHandler orig :: params s0)] [ASetParams (params s0)]
+                     [FCallThunk; FHandlerDone c] (CRet (VNat 0))).
+  set (w2 := mkS (ctl w1) (kont w1) (dk w1) (params w1) (hp w1) (conts w1 ++ [(kont w1, dk w1)])
+                 (slots w1) (counts w1) (out w1) (st w1)).
+  assert (HI2 : Inv w2).
+  { pose proof (do_wind_inv s0 k [ASetParams (BHandler orig :: params s0)] [ASetParams (params s0)]
+                            [FCallThunk; FHandlerDone c] (CRet (VNat 0)) HI) as H.
+    specialize (H ltac:(right; eauto) ltac:(repeat constructor)). fold w1 in H.
+    destruct H as (A & B & C & D & E).
+    unfold Inv, Invk, inv, w2. cbn [hp kont dk params conts].
+    split; [exact A|]. split; [exact B|]. split; [exact C|]. split; [exact D|]. apply conts_snoc; auto. }
+  assert (Hn2 : nth_error (conts w2) gk = Some (FCallThunk :: kg, pt)).
+  { unfold w2. cbn [conts]. unfold w1, do_wind. cbn [conts].
+    rewrite nth_error_app1; [exact Hn|]. apply nth_error_Some. rewrite Hn. discriminate. }
+  destruct (do_throw_r7rs travel_to_point travel_impl_ok w2 gk (VClauseThunk only tag e v (length (conts w1))) _ _ HI2 Hn2)
+    as [E1 _].
+  rewrite E1. cbn [out hp]. reflexivity.
+Qed.
+
+(** dynamic-wind without escapes: entry runs the before thunk once and opens a new extent under the current one; normal return
+    of the body closes it and runs the after thunk once, giving the body's value to the dynamic-wind's continuation *)
+Theorem dynamic_wind_normal_entry_exit_lemma :
+  (forall s i body, st s = Running -> ctl s = CEval (DynWind i body) ->
+     let s' := step_impl s in
+     ctl s' = CEval body /\ out s' = (1, i) :: out s /\ dk s' = length (hp s) /\ params s' = params s /\
+     kont s' = FWindExit (length (hp s)) (dk s) [AEmit 2 i] :: kont s /\
+     hp s' = hp s ++ [mkP (depth (hp s) (dk s) + 1) [AEmit 1 i] [AEmit 2 i] (dk s)]) /\
+  (forall s v np here i k, st s = Running -> ctl s = CRet v -> kont s = FWindExit np here [AEmit 2 i] :: k ->
+     let s' := step_impl s in
+     ctl s' = CRet v /\ out s' = (2, i) :: out s /\ dk s' = here /\ params s' = params s /\ kont s' = k /\ hp s' = hp s).
+Proof.
+  split.
+  - intros s i body Hst Hc. unfold step_impl, step. rewrite Hst, Hc. cbn. repeat split; reflexivity.
+  - intros s v np here i k Hst Hc Hk. unfold step_impl, step. rewrite Hst, Hc. unfold step_ret. rewrite Hk.
+    cbn. repeat split; reflexivity.
 Qed.
